@@ -70,27 +70,43 @@ fn ref_cost(r: &BusRegs, kind: char, n: u32, addr: u32) -> Option<u32> {
     Some(n * per_access * accesses)
 }
 
+/// The settings are written the way a guest (and `init_registers`) writes them: through `Bus::write`,
+/// and only the registers whose value changes, so that successive evaluations form a history of register
+/// writes (a stale cache of decoded settings would show).
 fn set_regs(ctx: &mut Ctx, r: &BusRegs) {
-    let io = &mut ctx.m.cpu.bus.io_registrs1;
-    io[(ABWCR - mach::IO1_LO) as usize] = r.abwcr;
-    io[(ASTCR - mach::IO1_LO) as usize] = r.astcr;
-    io[(WCRH - mach::IO1_LO) as usize] = r.wcrh;
-    io[(WCRL - mach::IO1_LO) as usize] = r.wcrl;
-    io[(DRCRA - mach::IO1_LO) as usize] = r.drcra;
+    for (a, v) in [(ABWCR, r.abwcr), (ASTCR, r.astcr), (WCRH, r.wcrh), (WCRL, r.wcrl), (DRCRA, r.drcra)] {
+        if ctx.m.cpu.bus.io_registrs1[(a - mach::IO1_LO) as usize] != v {
+            let _ = ctx.m.cpu.bus.write(a, v);
+        }
+    }
 }
 
 fn restore_regs(ctx: &mut Ctx) {
     for a in [ABWCR, ASTCR, WCRH, WCRL, DRCRA] {
-        ctx.m.cpu.bus.io_registrs1[(a - mach::IO1_LO) as usize] = pristine(a);
+        let _ = ctx.m.cpu.bus.write(a, pristine(a));
     }
 }
 
+thread_local! {
+    /// register writes performed since the reset settings (unit setting-histories): recorded with a counterexample
+    static C19_HISTORY: std::cell::RefCell<Vec<(u32, u8)>> = std::cell::RefCell::new(Vec::new());
+}
+
 fn c19_case_json(r: &BusRegs, kind: char, n: u32, addr: u32) -> Value {
+    let hist: Vec<String> = C19_HISTORY.with(|h| h.borrow().iter().map(|(a, v)| format!("{:06x}={:02x}", a, v)).collect());
+    if !hist.is_empty() {
+        return json!({"abwcr": r.abwcr, "astcr": r.astcr, "wcrh": r.wcrh, "wcrl": r.wcrl, "drcra": r.drcra, "kind": kind.to_string(), "count": n, "addr": format!("{:x}", addr), "history": hist});
+    }
     json!({"abwcr": r.abwcr, "astcr": r.astcr, "wcrh": r.wcrh, "wcrl": r.wcrl, "drcra": r.drcra, "kind": kind.to_string(), "count": n, "addr": format!("{:x}", addr)})
 }
 
 fn c19_eval(ctx: &mut Ctx, r: &BusRegs, kind: char, n: u32, addr: u32) -> bool {
     set_regs(ctx, r);
+    c19_eval_current(ctx, r, kind, n, addr)
+}
+
+/// Same, the registers already hold `r` (written by the caller as a history of Bus::write calls).
+fn c19_eval_current(ctx: &mut Ctx, r: &BusRegs, kind: char, n: u32, addr: u32) -> bool {
     let got = ctx.m.cpu.calc_state_with_addr(st_of(kind), n as u8, addr).ok().map(|x| x as u32);
     let exp = ref_cost(r, kind, n, addr);
     if addr > 0xffffff && kind != 'N' {
@@ -190,6 +206,68 @@ fn c19_units(tier: Tier) -> Vec<Unit> {
             ctx.sample(json!({"abwcr": 0xff, "astcr": 0xfb, "wcrl": 0xcf, "drcra": 0xe0, "kind": "M", "count": 2, "addr": format!("{:x}", area << 21)}));
         }));
     }
+    // ---- histories of register writes: a cost must depend on the *current* settings only
+    units.push(Unit::new(
+        "setting-histories",
+        30,
+        "every history of <= 3 single-register writes over {ABWCR, ASTCR, WCRH, WCRL, DRCRA} x 6 values each (00, ff, 55, aa, the reset value, a single field) through Bus::write, starting from the reset settings; after every write the cost of 3 cycle kinds x 2 counts at one address of each of the 8 areas, of on-chip RAM and of an I/O register address is compared with the closed form for the settings now in force (30 + 900 + 27,000 histories)",
+        move |ctx, chunk| {
+            let regs = [ABWCR, ASTCR, WCRH, WCRL, DRCRA];
+            let vals: [[u8; 6]; 5] = [[0x00, 0xff, 0x55, 0xaa, 0xff, 0x04], [0x00, 0xff, 0x55, 0xaa, 0xfb, 0x04], [0x00, 0xff, 0x55, 0xaa, 0xff, 0x30], [0x00, 0xff, 0x55, 0xaa, 0xcf, 0x30], [0x00, 0xe0, 0x40, 0xa0, 0x20, 0x80]];
+            let probes: Vec<u32> = (0..8u32).map(|a| (a << 21) + 0x1234).chain([0xffe000u32, 0xffc000]).collect();
+            let writes: Vec<(usize, u8)> = (0..5).flat_map(|r| (0..6).map(move |k| (r, k))).map(|(r, k)| (r, vals[r][k])).collect();
+            let eval_all = |ctx: &mut Ctx, r: &BusRegs| -> bool {
+                for &addr in probes.iter() {
+                    for &k in &['J', 'L', 'M'] {
+                        for n in [1u32, 3] {
+                            if !c19_eval_current(ctx, r, k, n, addr) {
+                                return false;
+                            }
+                        }
+                    }
+                }
+                true
+            };
+            let apply = |ctx: &mut Ctx, r: &mut BusRegs, w: (usize, u8)| {
+                let _ = ctx.m.cpu.bus.write(regs[w.0], w.1);
+                C19_HISTORY.with(|h| h.borrow_mut().push((regs[w.0], w.1)));
+                match w.0 {
+                    0 => r.abwcr = w.1,
+                    1 => r.astcr = w.1,
+                    2 => r.wcrh = w.1,
+                    3 => r.wcrl = w.1,
+                    _ => r.drcra = w.1,
+                }
+            };
+            let w1 = writes[chunk as usize];
+            let reset = BusRegs { abwcr: 0xff, astcr: 0xfb, wcrh: 0xff, wcrl: 0xcf, drcra: 0xe0 };
+            let mut seqs: Vec<Vec<(usize, u8)>> = vec![vec![w1]];
+            for &w2 in writes.iter() {
+                seqs.push(vec![w1, w2]);
+                for &w3 in writes.iter() {
+                    seqs.push(vec![w1, w2, w3]);
+                }
+            }
+            for seq in seqs {
+                restore_regs(ctx);
+                C19_HISTORY.with(|h| h.borrow_mut().clear());
+                let mut r = reset;
+                let mut ok = eval_all(ctx, &r);
+                for &w in seq.iter() {
+                    if !ok {
+                        break;
+                    }
+                    apply(ctx, &mut r, w);
+                    ok = eval_all(ctx, &r);
+                }
+                if ctx.stop {
+                    break;
+                }
+            }
+            C19_HISTORY.with(|h| h.borrow_mut().clear());
+            restore_regs(ctx);
+        },
+    ));
     units.push(Unit::new(
         "onchip-ram-and-rejects",
         1,
@@ -275,7 +353,18 @@ pub fn replay_c19(ctx: &mut Ctx, case: &Value) -> bool {
     let kind = case["kind"].as_str().unwrap_or("N").chars().next().unwrap_or('N');
     let n = case["count"].as_u64().unwrap_or(1) as u32;
     let addr = u32::from_str_radix(case["addr"].as_str().unwrap_or("0"), 16).unwrap_or(0);
-    set_regs(ctx, &r);
+    if let Some(h) = case["history"].as_array() {
+        // the recorded history of register writes, from the reset settings, evaluating the probe after every write
+        restore_regs(ctx);
+        for e in h {
+            if let Some((a, v)) = e.as_str().and_then(|s| s.split_once('=')) {
+                let _ = ctx.m.cpu.calc_state_with_addr(st_of(kind), n as u8, addr);
+                let _ = ctx.m.cpu.bus.write(u32::from_str_radix(a, 16).unwrap_or(0), u8::from_str_radix(v, 16).unwrap_or(0));
+            }
+        }
+    } else {
+        set_regs(ctx, &r);
+    }
     let got = ctx.m.cpu.calc_state_with_addr(st_of(kind), n as u8, addr).ok().map(|x| x as u32);
     let exp = ref_cost(&r, kind, n, addr);
     println!("expected: {:?}\nactual:   {:?}", exp, got);
